@@ -3,6 +3,7 @@ import GoNeat.Model.Scalar
 import GoNeat.Model.Rand
 import GoNeat.Model.Genome
 import GoNeat.Model.Compat
+import GoNeat.Model.Net
 import GoNeat.Spec.WF
 import GoNeat.Spec.Compat
 import GoNeat.Driver.All
